@@ -322,15 +322,29 @@ func TestWorker(t *testing.T) {
 	var active atomic.Bool
 	go func() {
 		last := workerProgress.Load()
-		lastChange := time.Now()
+		stalled := 0 // consecutive one-second looks without scheduling progress
+		stallCPU := int64(-1)
 		for {
 			time.Sleep(time.Second)
 			p := workerProgress.Load()
 			if p != last || !active.Load() {
-				last, lastChange = p, time.Now()
+				last, stalled, stallCPU = p, 0, -1
 				continue
 			}
-			if time.Since(lastChange) > 20*time.Second {
+			// Counted in looks, not in wall-clock time: after a pause of the whole
+			// machine the first look must not conclude anything.
+			stalled++
+			if stallCPU < 0 {
+				stallCPU = cpuTicks()
+			}
+			// A process that makes no progress and burns no CPU is blocked for good
+			// (a goroutine waits for a sync.Mutex held by a parked task, which
+			// synctest cannot see); one that is busy may just be slow, or spinning.
+			idle := false
+			if c := cpuTicks(); c >= 0 && stallCPU >= 0 {
+				idle = stalled >= 5 && c-stallCPU <= 2
+			}
+			if idle || stalled >= 25 {
 				emit(outLine{T: "hang", I: curIdx.Load(), Seed: curSeed.Load()})
 				os.RemoveAll(dir)
 				os.Exit(3)
@@ -444,4 +458,26 @@ func TestWorker(t *testing.T) {
 	sum.WallMs = time.Since(start).Milliseconds()
 	emit(outLine{T: "summary", I: idx, Sum: sum})
 	f.Close()
+}
+
+// cpuTicks returns the CPU time (user+system, clock ticks) this process has
+// used, or -1 when /proc is not available.
+func cpuTicks() int64 {
+	b, err := os.ReadFile("/proc/self/stat")
+	if err != nil {
+		return -1
+	}
+	// fields after the command name in parentheses
+	i := strings.LastIndexByte(string(b), ')')
+	if i < 0 {
+		return -1
+	}
+	f := strings.Fields(string(b[i+1:]))
+	if len(f) < 13 {
+		return -1
+	}
+	var ut, st int64
+	fmt.Sscan(f[11], &ut)
+	fmt.Sscan(f[12], &st)
+	return ut + st
 }
